@@ -212,6 +212,37 @@ def run(ctx):
                     ctx.violation(why, {"input_hex": hx(s), "input": s.decode("utf-8", "replace"), "impl": li, "spec_model": lm})
     ctx.count("corpus", ncorpus)
 
+    # ---------------- driver cross-check: Coq's own evaluation of the model on a sample of the same strings
+    import re
+    flat = [(inp, lm) for (_, out_m, _), ch in zip(model, chunks) if len(out_m) == len(ch) for inp, lm in zip(ch, out_m)]
+    picked = [x for x in flat if len(x[0]) <= 2 + 2 * 40]
+    picked = r.sample(picked, min(len(picked), 400 if thorough else 120))
+    terms = []
+    for inp, _ in picked:
+        s = bytes.fromhex(inp[2:]) if inp[2:] != "-" else b""
+        terms.append("Eval vm_compute in (let l := [%s] in (match parse_description l with Ok tys => (0, to_str_list tys) | Err => (1, []) | Panic => (2, []) | _ => (3, []) end, match validate_signature l with Ok _ => 0 | Err => 1 | Panic => 2 | _ => 3 end))."
+                     % "; ".join(str(c) for c in s))
+    v = ("From RB Require Import Base.Prelude Sig.Types Sig.Parser Sig.Validator.\nOpen Scope N_scope.\n" + "\n".join(terms) + "\n")
+    out = vlib.coq_eval("c07_cross", v)
+    blocks = re.split(r"^\s*= ", out, flags=re.M)[1:]
+    if len(blocks) != len(picked):
+        ctx.tie_broken("in-Coq evaluation printed %d results for %d terms" % (len(blocks), len(picked)), out[-1500:])
+    else:
+        code = {"ok": 0, "err": 1, "panic": 2}
+        for blk, (inp, lm) in zip(blocks, picked):
+            flat_blk = " ".join(blk.split())
+            m = re.match(r"\(\s*(\d+), \[([0-9; ]*)\], (\d+)\)", flat_blk.replace("((", "(").replace("])", "]"))
+            d = parse_line(lm)
+            ctx.count("in_coq_vm_compute_cases")
+            want = (code.get(d["P"], 3), d["R"] if d["P"] == "ok" else "-", code.get(d["V"], 3))
+            got = None
+            if m:
+                bs = bytes(int(x) for x in m.group(2).replace(" ", "").split(";") if x)
+                got = (int(m.group(1)), (hx(bs) if int(m.group(1)) == 0 else "-"), int(m.group(3)))
+            if got != want:
+                ctx.tie_broken("extracted driver and Coq's own vm_compute evaluation of the model differ",
+                               "line: %s\ndriver: %s\ncoq: %s" % (inp, lm, flat_blk[:400]))
+
     # ---------------- stream 2: exhaustive enumeration
     maxlen = 6 if thorough else 5
     tasks = []
